@@ -52,10 +52,11 @@ def cer(hbh=0x01010101, e2e=0x02020202, host=None, realm=None, drop=None, apps=(
     return refcodec.enc_msg((1, 0x80, 257, 0, hbh, e2e, avps))
 
 
-def cea(hbh, e2e, host=None, realm=None, drop=None, result=2001, apps=(S6A,), dup=None):
+def cea(hbh, e2e, host=None, realm=None, drop=None, result=2001, apps=(S6A,), dup=None, extra=()):
     avps = [(268, 0x40, None, result.to_bytes(4, "big"))] + _id(host or PEER["host"], realm or PEER["realm"]) + [
         (257, 0x40, None, b"\x00\x01\x7f\x00\x00\x02"), (266, 0x40, None, (0).to_bytes(4, "big")),
         (269, 0x00, None, b"peer-product")]
+    avps += list(extra)
     if dup is not None:
         avps += [a for a in avps if a[0] == dup]
     if drop is not None:
